@@ -1238,12 +1238,28 @@ def exhaustive_loop(P, fn_qual, allow_exits=0):
 
 
 # ------------------------------------------------------------------------------ structural inventories per source file
-_IDENT = re.compile(r'(?<![\w.:#])(?!const\b)([a-z_][a-z0-9_]*)(?=[.,)\s\]}]|$)')
+_IDENT = re.compile(r'(?<![\w.:#])(?!const\b)([a-z_][a-z0-9_]*)(?=[.,)\s\]}<]|$)')
+
+
+def _drop_elements(s):
+    """`Iterator::next(<anything>)` -> `_`: the element a loop is looking at is as anonymous as a closure parameter"""
+    tag = 'Iterator::next('
+    while True:
+        i = s.find(tag)
+        if i < 0:
+            return s
+        j, depth = i + len(tag), 1
+        while j < len(s) and depth:
+            depth += s[j] == '('
+            depth -= s[j] == ')'
+            j += 1
+        s = s[:i] + '_' + s[j:]
 
 
 def normalise_operand(s):
     """abstract local / parameter names, keep field names, callee names and constants"""
     s = re.sub(r'\{closure:\{closure#\d+\}\}', '{closure}', s)
+    s = _drop_elements(s)
     s = re.sub(r'(?<![\w.])_\d+\b', '_', s)
     s = _IDENT.sub('_', s)
     s = re.sub(r'promoted\[\d+\]', 'promoted', s)
